@@ -804,7 +804,7 @@ pub open spec fn tag_matches(t: Tag, d: Seq<u8>, o: int) -> bool {
 }
 
 UNITS["dec_ext"] = {
-    "prelude_sections": ["errors", "reader"],
+    "prelude_sections": ["errors", "reader", "hashmap_shim"],
     "items": [
         {"kind": "struct", "file": "external_file", "name": "ExternalFileId", "keep": None, "attrs": "#[derive(Clone, Copy, PartialEq, Eq)]\n"},
         {"kind": "struct", "file": "external_file", "name": "ExternalFile", "keep": None},
@@ -843,6 +843,14 @@ pub open spec fn ext_matches(e: ExternalFile, d: Seq<u8>, o: int) -> bool {
          "hints": [("let id = ExternalFileId::new", "            let ghost o = reader.pos();\n            let ghost k = results@.len() as int;", "before"),
                    ("results.push(", "            assert(ext_ok(data@, o));\n            assert(ext_off(data@, k + 1) == str_end(data@, o + 12));", "before")],
          },
+        {"kind": "struct", "file": "external_file", "name": "ExternalFilesById", "keep": None},
+        {"kind": "fn", "file": "external_file", "name": "id", "key": "ExternalFile::id", "impl_of": "ExternalFile", "impl_filter": r"impl\s+ExternalFile\s", "ret": "r", "ensures": "        *r == self.id,"},
+        {"kind": "fn", "file": "external_file", "name": "value", "key": "ExternalFileId::value", "impl_of": "ExternalFileId", "ret": "r", "ensures": "        r == self.0,"},
+        {"kind": "fn", "file": "external_file", "name": "new", "key": "ExternalFilesById::new", "impl_of": "ExternalFilesById", "ret": "r", "ensures": "        r.0@ == Map::<ExternalFileId, ExternalFile>::empty(),"},
+        {"kind": "fn", "file": "external_file", "name": "add", "key": "ExternalFilesById::add", "impl_of": "ExternalFilesById",
+         "ensures": "        // stored under its own id; a later entry with the same id replaces the earlier one\n        final(self).0@ == old(self).0@.insert(external_file.id, external_file),"},
+        {"kind": "fn", "file": "external_file", "name": "get", "key": "ExternalFilesById::get", "impl_of": "ExternalFilesById", "ret": "r",
+         "ensures": "        (r is Some) == self.0@.contains_key(*id), r is Some ==> *(r->0) == self.0@[*id],"},
     ],
 }
 
